@@ -140,7 +140,7 @@ def findPosS (s : St) (val : Nat) (cmp : Nat → Nat → Bool) : Nat → Loc →
     else if wnext cur = MAXU32 then pure (cur, loc)
     else do
       let nw ← s.mem.readWord? (wnext cur)
-      if wsize nw = 0 then findPosS s val cmp fuel loc cur
+      if wsize nw = 0 then findPosS s val cmp fuel .hdr s.sentinel   -- removed: search again from the head
       else if cmp val (wsize nw) then pure (cur, loc)
       else findPosS s val cmp fuel (.node (wnext cur)) nw
 
@@ -282,7 +282,10 @@ def slowOpt (c : Cfg) (size fuel : Nat) : Nat → St → M (AllocRes × St)
           else
             let (s2, ok2) ← s1.casLoc .hdr sent (enc (wsize sent) (wnext hw))
             if ok2 then finishSlow c s2 head (wsize hw) size fuel
-            else slowOpt c size fuel tries s2
+            else do
+              -- give the mark back
+              let (s3, _) ← s2.casLoc (.node head) (enc 0 (wnext hw)) hw
+              slowOpt c size fuel tries s3
         else
           finishSlow c { s with sentinel := enc (wsize sent) (wnext hw) } head (wsize hw) size fuel
 
@@ -306,7 +309,10 @@ def slowPess (c : Cfg) (size fuel : Nat) : Nat → St → M (AllocRes × St)
             if ok2 then
               let _ ← subU "pess:remaining" (wsize nw) size
               finishSlow c s2 noff (wsize nw) size fuel
-            else slowPess c size fuel tries s2
+            else do
+              -- give the mark back
+              let (s3, _) ← s2.casLoc (.node noff) (enc 0 (wnext nw)) nw
+              slowPess c size fuel tries s3
         else do
           let _ ← subU "pess:remaining" (wsize nw) size
           let s1 ← s.writeLoc ploc (enc (wsize pw) (wnext nw))
@@ -425,7 +431,10 @@ def discardLoop (c : Cfg) : Nat → Nat → St → M (Nat × St)
           if ok2 then
             let acc' ← addU32 "discard:sum" acc (wsize hw)
             discardLoop c fuel acc' (s2.incDiscarded c (wsize hw))
-          else discardLoop c fuel acc s2
+          else do
+            -- give the mark back
+            let (s3, _) ← s2.casLoc (.node head) (enc 0 (wnext hw)) hw
+            discardLoop c fuel acc s3
       else do
         let s1 := { s with sentinel := enc (wsize sent) (wnext hw) }
         let acc' ← addU32 "discard:sum" acc (wsize hw)
